@@ -51,6 +51,8 @@ type Check[C any] struct {
 	Exec      func(c C, s Source) Result
 	HangLimit time.Duration // 0 = 60 s
 	NoJournal bool
+	// Bounded: a DFS that stops at its leaf bound is a bounded (non-exhaustive) exploration, not a failure.
+	Bounded bool
 }
 
 type ReplayFile struct {
@@ -398,7 +400,7 @@ func newAccum(name, mode string, requested int, seed uint64) *accum {
 		hashes: map[uint64]struct{}{}, seedMix: seed}
 }
 
-func (a *accum) add(desc []byte, res Result) {
+func (a *accum) add(desc []byte, choices []uint64, res Result) {
 	s := a.sub
 	if res.Excluded != "" {
 		if s.Excluded == nil {
@@ -420,7 +422,18 @@ func (a *accum) add(desc []byte, res Result) {
 	}
 	if res.NonTrivial {
 		s.NonTrivial++
-		a.hashes[hash64(desc)] = struct{}{}
+		// distinct = distinct (decoded case, choice list): the choices made during execution
+		// (schedules) are part of the case
+		h := fnv.New64a()
+		h.Write(desc)
+		var b [8]byte
+		for _, c := range choices {
+			for i := 0; i < 8; i++ {
+				b[i] = byte(c >> (8 * i))
+			}
+			h.Write(b[:])
+		}
+		a.hashes[h.Sum64()] = struct{}{}
 	}
 	// samples: the first three, then a sparse deterministic selection
 	n := s.Evaluations
@@ -556,7 +569,7 @@ func Rapid[C any](r *Runner, ck Check[C], n int) *SubResult {
 				}
 			}
 			if !failing {
-				a.add(desc, res)
+				a.add(desc, rec.Choices, res)
 			}
 		})
 	}()
@@ -622,7 +635,7 @@ func DFS[C any](r *Runner, ck Check[C], maxLeaves int) *SubResult {
 					break
 				}
 			}
-			a.add(desc, res)
+			a.add(desc, rec.Choices, res)
 		}
 		leaf++
 		if !d.Next() {
@@ -630,7 +643,9 @@ func DFS[C any](r *Runner, ck Check[C], maxLeaves int) *SubResult {
 		}
 		if maxLeaves > 0 && leaf >= maxLeaves {
 			a.sub.Exhaustive = false
-			a.sub.Incomplete = fmt.Sprintf("enumeration stopped at the bound of %d leaves", maxLeaves)
+			if !ck.Bounded {
+				a.sub.Incomplete = fmt.Sprintf("enumeration stopped at the bound of %d leaves", maxLeaves)
+			}
 			break
 		}
 	}
@@ -659,7 +674,7 @@ func replayOne[C any](r *Runner, ck *Check[C]) *SubResult {
 		a.sub.Violation = &ReplayFile{Property: r.Prop, Check: ck.Name, Signature: res.Violation.Signature,
 			Message: res.Violation.Message, Choices: rec.Choices, Case: desc}
 	}
-	a.add(desc, res)
+	a.add(desc, rec.Choices, res)
 	s := a.finish(start)
 	r.file.Subs = append(r.file.Subs, s)
 	r.flush()
